@@ -191,22 +191,54 @@ func isErrorEmitReturn(r *ssa.Return) bool {
 		if hasOriginCall(snd.X, "entity.NewMergeError", -1) != nil {
 			return true
 		}
-		// struct value with a non-nil Err field stored
-		if u, ok := snd.X.(*ssa.UnOp); ok {
-			if al, ok := u.X.(*ssa.Alloc); ok {
-				for _, ref := range *al.Referrers() {
-					if fa, ok := ref.(*ssa.FieldAddr); ok && fieldName(fa) == "Err" {
-						for _, r2 := range *fa.Referrers() {
-							if st, ok := r2.(*ssa.Store); ok && !isNilConst(st.Val) {
-								return true
-							}
+		if errEventValue(snd.X, 0) {
+			return true
+		}
+	}
+	return false
+}
+
+// errEventValue: v is a struct value built with a non-nil Err field — directly, or as the result of a
+// same-package helper all of whose returns are such values (an event constructor).
+func errEventValue(v ssa.Value, depth int) bool {
+	// struct value with a non-nil Err field stored
+	if u, ok := v.(*ssa.UnOp); ok {
+		if al, ok := u.X.(*ssa.Alloc); ok {
+			for _, ref := range *al.Referrers() {
+				if fa, ok := ref.(*ssa.FieldAddr); ok && fieldName(fa) == "Err" {
+					for _, r2 := range *fa.Referrers() {
+						if st, ok := r2.(*ssa.Store); ok && !isNilConst(st.Val) {
+							return true
 						}
 					}
 				}
 			}
 		}
 	}
+	if cv, ok := v.(*ssa.Call); ok && depth < 2 {
+		callee := cv.Common().StaticCallee()
+		if callee != nil {
+			callee = bodyOf(callee)
+		}
+		if callee != nil && len(callee.Blocks) > 0 && cv.Parent() != nil && samePkgFn(callee, cv.Parent()) {
+			rets := Returns(callee)
+			if len(rets) == 0 {
+				return false
+			}
+			for _, r := range rets {
+				if len(r.Results) != 1 || !errEventValue(ReturnResult(r, 0), depth+1) {
+					return false
+				}
+			}
+			return true
+		}
+	}
 	return false
+}
+
+func samePkgFn(a, b *ssa.Function) bool {
+	pa, pb := fnPkgPath(a), fnPkgPath(b)
+	return pa != "" && pa == pb
 }
 
 func checkExcerptIndexPairing(c *Ctx) {
